@@ -129,11 +129,23 @@ impl Rep {
     }
 
     /// The model's idea of the replacer's output for one match.
-    fn expand(&self, text: &str, groups: &Groups) -> String {
+    fn expand(&self, text: &str, groups: &Groups, names: &[(String, usize)]) -> String {
         let grp = |n: usize| -> &str {
             match groups.get(n) {
                 Some(Some((s, e))) => &text[*s..*e],
                 _ => "",
+            }
+        };
+        // a reference is a group *name* if the regex has a group of that name, otherwise a group
+        // number if it parses as one, otherwise nothing (resolved against the regex at hand, so
+        // that shrunk cases stay meaningful)
+        let by_ref = |r: &str| -> &str {
+            if let Some((_, i)) = names.iter().find(|(n, _)| n == r) {
+                grp(*i)
+            } else if let Ok(k) = r.parse::<usize>() {
+                grp(k)
+            } else {
+                ""
             }
         };
         match self {
@@ -145,8 +157,8 @@ impl Rep {
                     match t {
                         Tok::Lit(l) => out.push_str(l),
                         Tok::Dollar => out.push('$'),
-                        Tok::Group(n) | Tok::GroupBare(n) => out.push_str(grp(*n)),
-                        Tok::Name(_, n) | Tok::NameBare(_, n) => out.push_str(grp(*n)),
+                        Tok::Group(n) | Tok::GroupBare(n) => out.push_str(by_ref(&n.to_string())),
+                        Tok::Name(name, _) | Tok::NameBare(name, _) => out.push_str(by_ref(name)),
                     }
                 }
                 out
@@ -241,6 +253,8 @@ fn call_real_inner(re: &Regex, text: &str, n: usize, rep: &Rep, entry: Entry) ->
 pub struct Matches {
     pub find: Vec<Item>,
     pub caps: Vec<Outcome<Groups>>,
+    /// the regex's named groups (name, index)
+    pub names: Vec<(String, usize)>,
 }
 
 fn fault_free_matches(re: &Regex, text: &str) -> Matches {
@@ -266,7 +280,8 @@ fn fault_free_matches(re: &Regex, text: &str) -> Matches {
         }
     }
     budget::disarm();
-    Matches { find, caps }
+    let names = re.capture_names().enumerate().filter_map(|(i, n)| n.map(|n| (n.to_string(), i))).collect();
+    Matches { find, caps, names }
 }
 
 /// The statement, executable: gaps verbatim, first n matches (all if n = 0) replaced, tail verbatim;
@@ -309,7 +324,7 @@ fn model(text: &str, m: &Matches, n: usize, rep: &Rep) -> Option<Outcome<RepOut>
             g.push(Some((*s, *e)));
         }
         g[0] = Some((*s, *e));
-        out.push_str(&rep.expand(text, &g));
+        out.push_str(&rep.expand(text, &g, &m.names));
         last = *e;
     }
     out.push_str(text.get(last..)?);
@@ -368,6 +383,7 @@ pub struct Stats {
     pub vm_insns: u64,
     pub budget_skipped: u64,
     pub reuse_checks: u64,
+    pub equivalence_groups_faulted: u64,
     pub digest: u64,
 }
 
@@ -541,6 +557,13 @@ fn minimise(case: &Case, ast: Option<&Node>, class: &str) -> Case {
 /// "a template without `$`, NoExpand of the same string and a closure returning it give identical
 /// results" — and so the fast and the slow path agree.
 fn equivalence(re: &Regex, text: &str, n: usize, s: &str) -> Option<Found> {
+    equivalence_under(re, text, n, s, &None)
+}
+
+/// The same under a limit fault on search #j of each call: the fast and the slow path make the
+/// same searches in the same order, so the same search aborts in both and all five replacer kinds
+/// must still agree (all `Err`, or all the same text).
+fn equivalence_under(re: &Regex, text: &str, n: usize, s: &str, fault: &Option<IterFault>) -> Option<Found> {
     let reps = [
         Rep::Str(s.to_string()),
         Rep::OwnedString(s.to_string()),
@@ -548,12 +571,29 @@ fn equivalence(re: &Regex, text: &str, n: usize, s: &str) -> Option<Found> {
         Rep::NoExpand(s.to_string()),
         Rep::ConstClosure(s.to_string()),
     ];
-    let outs: Vec<Outcome<RepOut>> = reps.iter().map(|r| call_real(re, text, n, r, Entry::TryReplacen)).collect();
+    let outs: Vec<Outcome<RepOut>> = reps
+        .iter()
+        .map(|r| {
+            verif::reset_run_ordinal();
+            verif::set_fault_plan(c08::plan_of(fault));
+            let o = call_real(re, text, n, r, Entry::TryReplacen);
+            verif::set_fault_plan(Vec::new());
+            o
+        })
+        .collect();
+    if outs.iter().any(|o| matches!(o, Outcome::Panic(m) if m == budget::INSN_PAYLOAD)) {
+        return None;
+    }
     for i in 1..outs.len() {
         if outs[i] != outs[0] {
             return Some(Found {
                 class: "replacer-kinds-disagree".into(),
-                detail: format!("try_replacen({:?}, n={}) with {:?} returned {} but with {:?} returned {}", text, n, reps[0], outs[0].show(), reps[i], outs[i].show()),
+                detail: format!(
+                    "try_replacen({:?}, n={}){} with {:?} returned {} but with {:?} returned {}",
+                    text, n,
+                    fault.as_ref().map(|f| format!(" with search #{} of the call aborted ({} {})", f.j, f.kind, f.val)).unwrap_or_default(),
+                    reps[0], outs[0].show(), reps[i], outs[i].show()
+                ),
             });
         }
     }
@@ -621,7 +661,11 @@ fn replay_reuse(case: &Value) -> Option<(String, String)> {
 
 fn replay_equivalence(case: &Value) -> Option<(String, String)> {
     let re = compile(case["pattern"].as_str()?)?;
-    equivalence(&re, case["text"].as_str()?, case["n"].as_u64()? as usize, case["s"].as_str()?).map(|f| (f.class, f.detail))
+    let fault = match &case["fault"] {
+        Value::Array(a) => Some(IterFault { j: a[0].as_u64()?, kind: a[1].as_str()?.to_string(), val: a[2].as_u64()? as usize }),
+        _ => None,
+    };
+    equivalence_under(&re, case["text"].as_str()?, case["n"].as_u64()? as usize, case["s"].as_str()?, &fault).map(|f| (f.class, f.detail))
 }
 
 fn gen_rep(rng: &mut Rng, re: &Regex) -> Rep {
@@ -655,6 +699,15 @@ fn gen_rep(rng: &mut Rng, re: &Regex) -> Rep {
                     _ => Tok::Group(rng.below(ngroups + 1)),
                 });
             }
+            // a reference is looked up as a *name* first: `${2}` means the group named "2" when
+            // there is one, and only otherwise group number 2
+            for t in toks.iter_mut() {
+                if let Tok::Group(k) = t {
+                    if let Some((name, idx)) = names.iter().find(|(nm, _)| *nm == k.to_string()) {
+                        *t = Tok::Name(name.clone(), *idx);
+                    }
+                }
+            }
             // un-braced `$N` / `$name` where the following template character cannot be read
             // as part of the name (names take the longest run of alphanumerics and `_`)
             for i in 0..toks.len() {
@@ -680,6 +733,7 @@ fn gen_cfg(rng: &mut Rng) -> GenCfg {
     let mut cfg = GenCfg::swarm(rng);
     cfg.allow_keepout_in_look = false;
     cfg.allow_cond_in_atomic = true;
+    cfg.numeric_names = rng.chance(1, 3);
     cfg
 }
 
@@ -770,6 +824,15 @@ fn job(seed: u64, i: u64) -> (JobOut, Option<Violation>) {
                             if found.is_some() {
                                 break;
                             }
+                            if rng.chance(1, 4) {
+                                out.st.equivalence_groups_faulted += 1;
+                                let s = rng.pick(&["X", "", "é-"]).to_string();
+                                if let Some(f) = equivalence_under(&re, &text, effective_n(&case), &s, &case.fault) {
+                                    let fl = case.fault.as_ref().map(|f| json!([f.j, f.kind, f.val]));
+                                    let replay = json!({"kind": "c11-equivalence", "pattern": pattern, "text": text, "n": effective_n(&case), "s": s, "fault": fl});
+                                    return (out, Some(Violation::new(PROP, &f.class, f.detail, replay)));
+                                }
+                            }
                         }
                         if found.is_some() {
                             break;
@@ -812,6 +875,7 @@ fn add(a: &mut Stats, b: &Stats) {
     a.vm_insns += b.vm_insns;
     a.budget_skipped += b.budget_skipped;
     a.reuse_checks += b.reuse_checks;
+    a.equivalence_groups_faulted += b.equivalence_groups_faulted;
 }
 
 pub fn digest(seed: u64, n: u64, workers: usize) -> Vec<u64> {
@@ -830,11 +894,10 @@ pub fn run(opts: &Opts) -> i32 {
     let thorough = opts.tier == Tier::Thorough;
     let n = if opts.budget > 0 { opts.budget } else if thorough { 12_000_000 } else { 300_000 };
     let seed = opts.seed;
-    let (results, viol) = run_batch(n, opts.workers, move |i| job(seed, i));
     let mut st = Stats::default();
-    let mut nt: HashSet<u64> = HashSet::new();
+    let mut nt = Distinct::new();
     let mut samples = Vec::new();
-    for (_, r) in &results {
+    let (jobs_done, viol) = run_batch_chunked(n, opts.workers, move |i| job(seed, i), |_, r| {
         add(&mut st, &r.st);
         nt.extend(r.nontrivial_hashes.iter());
         if samples.len() < 4 {
@@ -842,7 +905,7 @@ pub fn run(opts: &Opts) -> i32 {
                 samples.push(s.clone());
             }
         }
-    }
+    });
     let wall = t0.elapsed().as_secs_f64();
     let mut code = 0;
     let mut violations = 0;
@@ -877,11 +940,12 @@ pub fn run(opts: &Opts) -> i32 {
             "owned_results": st.owned_results,
             "replacer_kind_equivalence_groups": st.equivalence_groups,
             "replacer_objects_reused_through_by_ref": st.reuse_checks,
+            "replacer_kind_equivalence_groups_under_a_limit_fault": st.equivalence_groups_faulted,
             "calls_skipped_over_instruction_budget": st.budget_skipped,
             "panicking_wrappers_compared": st.wrappers_compared,
         }));
         extra.insert("runs_per_hour".into(), json!(((st.calls as f64) / wall.max(1e-9) * 3600.0) as u64));
-        extra.insert("seeds".into(), json!(format!("derive({}, 0..{})", seed, results.len())));
+        extra.insert("seeds".into(), json!(format!("derive({}, 0..{})", seed, jobs_done)));
         extra.insert("real_vs_stub".into(), json!({
             "real": ["Regex::try_replacen / replace / replacen / replace_all", "Replacer impls (closures, &str, String, Cow, NoExpand)", "find_iter / captures_iter", "vm::run", "regex-automata"],
             "model": ["executable replace model (sim/src/c11.rs model) over the fault-free match sequence; expands only $$, ${N}, ${name} itself"],
